@@ -853,6 +853,198 @@ def line_dm(c):
     return 'oslog-dm ' + hexjson({'d': c['d'], 's': c['s']})
 
 
+# =============================================================================================
+# the same records through every ROUTE: packed into a version-3 dump (log-events blocks + string-index block) and read
+# back through KdBufParser.parse / PyKdebugParser.os_log_events
+
+DUMP_NAMES = ['kernel_task', 'locationd', 'launchd', 'a', '', 'naïve', 'x' * 19]
+DUMP_PIDS = [0, 1, 70, 99, 4242, 2 ** 31 - 1]
+
+
+def plistable(x):
+    """The same wire value with integers brought into the range a binary property list can hold."""
+    if isinstance(x, bool):
+        return x
+    if isinstance(x, int):
+        return x if -2 ** 63 <= x < 2 ** 64 else x % 2 ** 64
+    if isinstance(x, list):
+        return [plistable(v) for v in x]
+    if isinstance(x, dict):
+        return {k: plistable(v) for k, v in x.items()}
+    return x
+
+
+def gen_dump_strings(rng):
+    """A string table whose texts are pairwise distinct (the file stores it inverted: text -> index)."""
+    seen, out = set(), []
+    for i, s in gen_strings(rng):
+        if s in seen:
+            s = '%s#%d' % (s, i)
+        seen.add(s)
+        out.append([i, s])
+    return out
+
+
+def gen_dump(rng, subsets):
+    """One version-3 dump description around len(subsets) raw events: thread map naming SOME of the records' threads (with
+    and without a process name, pid 0 and others, duplicate entries, unrelated entries), the events spread over 1..3
+    log-events blocks, the string-index block before / between / behind them (an earlier, stale index block in front),
+    other blocks and kernel records around."""
+    from .. import containers as CT
+    S = gen_dump_strings(rng)
+    pool = rng.sample([0, 1, 7, 0x111, 0x222, 0x1234, 2 ** 64 - 1, rng.getrandbits(40), rng.getrandbits(64)], 3)
+    evs = []
+    for keys in subsets:
+        ev = plistable(gen_event(rng, S, keys, extra=rng.random() < 0.15))
+        ev['tid'] = rng.choice(pool)
+        if 'pid' in ev:
+            ev['pid'] = rng.choice(DUMP_PIDS + [rng.getrandbits(31)])
+        evs.append(ev)
+    listed = [t for t in pool if rng.random() < 0.6]
+    threads = [[t, rng.choice(DUMP_PIDS), rng.choice(DUMP_NAMES).encode('utf-8').hex()] for t in listed]
+    if threads and rng.random() < 0.3:                 # a second entry for a listed thread
+        threads.append([threads[0][0], rng.choice(DUMP_PIDS), rng.choice(DUMP_NAMES).encode('utf-8').hex()])
+    for _ in range(rng.choice([0, 0, 1, 2])):          # entries of threads no record names
+        threads.insert(rng.randrange(len(threads) + 1), [rng.getrandbits(20) + 0x10000, rng.choice(DUMP_PIDS),
+                                                         rng.choice(DUMP_NAMES).encode('utf-8').hex()])
+    f = CT.gen_v3(rng, small=True, blocks=False)
+    f['threads'] = threads
+    n = len(evs)
+    nb = rng.randrange(1, min(3, n) + 1)
+    cuts = sorted(rng.randrange(n + 1) for _ in range(nb - 1))
+    layout, prev = [], 0
+    for c in cuts + [n]:
+        layout.append(['logs', list(range(prev, c))])
+        prev = c
+    at = rng.randrange(len(layout) + 1)
+    layout.insert(at, ['strings'])
+    if rng.random() < 0.3:
+        layout.insert(rng.randrange(at + 1), ['stale'])
+    for _ in range(rng.choice([0, 0, 1, 2])):
+        layout.insert(rng.randrange(len(layout) + 1),
+                      rng.choice([['codes'], ['unknown', rng.randbytes(rng.randrange(0, 20)).hex()], ['procs']]))
+    prior = []
+    if rng.random() < 0.3:                             # tables left by an earlier request on the same object
+        prior = [[t, rng.choice(DUMP_PIDS), rng.choice(DUMP_NAMES)] for t in pool if rng.random() < 0.7]
+    return {'v3': f, 'layout': layout, 'evs': evs, 's': S, 'listed': listed, 'prior': prior,
+            'lastpad': rng.random() < 0.5, 'route': rng.choice(['KdBufParser.parse', 'PyKdebugParser.os_log_events'])}
+
+
+def dump_bytes(d):
+    from .. import containers as CT
+    f = dict(d['v3'])
+    blocks = []
+    for b in d['layout']:
+        if b[0] == 'logs':
+            tag, payload = CT.TAG_LOGS, CT.bplist({'Events': [unwire(copy.deepcopy(d['evs'][i])) for i in b[1]]})
+        elif b[0] == 'strings':
+            tag, payload = CT.TAG_STRINGS, CT.bplist({'StringIndex': {s[2:]: i for i, s in d['s']}})
+        elif b[0] == 'stale':
+            tag, payload = CT.TAG_STRINGS, CT.bplist({'StringIndex': {'stale%d' % j: i for j, (i, _) in enumerate(d['s'][:3])}})
+        elif b[0] == 'codes':
+            tag, payload = CT.TAG_CODES, b'0x1\tA_CODE\n'
+        elif b[0] == 'procs':
+            tag, payload = CT.TAG_PROCS, CT.bplist({'p1': {'pid': 1}})
+        else:
+            tag, payload = b'\x77\x80\x00\x00\x00\x00\x00\x00', bytes.fromhex(b[1])
+        blocks.append({'tag': tag.hex(), 'payload': payload.hex(), 'padded': True})
+    blocks[-1]['padded'] = d['lastpad']
+    f['blocks'] = blocks
+    return CT.v3_bytes(f)
+
+
+_LAST_DUMP = [None, None]
+
+
+def run_dump(d):
+    """The log records the dump yields through its route, canonicalised as they are produced: (answers, error name)."""
+    import io
+    from .. import impl  # noqa: F401
+    from .. import containers as CT
+    from pykdebugparser.os_log_event import OsLogEvent
+    if _LAST_DUMP[0] is d:
+        return _LAST_DUMP[1]
+    data = dump_bytes(d)
+    tp = {t: p for t, p, _ in d['prior']}
+    pn = {p: n for _, p, n in d['prior']}
+    if d['route'] == 'KdBufParser.parse':
+        from pykdebugparser.kd_buf_parser import KdBufParser
+        it = (o for o in KdBufParser(tp, pn).parse(io.BytesIO(data)) if isinstance(o, OsLogEvent))
+    else:
+        from pykdebugparser.pykdebugparser import PyKdebugParser
+        p = PyKdebugParser()
+        p.threads_pids.update(tp)
+        p.pids_names.update(pn)
+        it = p.os_log_events(io.BytesIO(data))
+    outs, err = [], None
+    try:
+        for ev in it:
+            outs.append('ok ' + dumps({f.name: canon(getattr(ev, f.name)) for f in dataclasses.fields(ev)}))
+    except Exception as e:
+        err = CT.out_err(e)
+    _LAST_DUMP[0], _LAST_DUMP[1] = d, (outs, err)
+    return outs, err
+
+
+def impl_dump_event(case):
+    outs, err = run_dump(case['dump'])
+    i = case['index']
+    if i < len(outs) and (err is not None or len(outs) == len(case['dump']['evs'])):
+        return outs[i]
+    if err is not None:
+        return 'err ' + err
+    return 'err dump:count:%d' % len(outs)
+
+
+def oracle_dump_event(case, got):
+    """The record read back from the file is the record the format describes: present fields carry their value, absent
+    fields keep their defaults — whatever else the dump holds."""
+    d = case['dump']
+    where = 'record %d of %d of a version-3 dump read through %s (thread %d %s the dump\'s thread map %s)' % (
+        case['index'], len(d['evs']), d['route'], case['e']['tid'],
+        'is listed in' if case['e']['tid'] in d['listed'] else 'is not in',
+        [(t[0], t[1], bytes.fromhex(t[2]).decode('utf-8')) for t in d['v3']['threads']])
+    if got.startswith('err dump:count:'):
+        return ('oslog:dump:record-count', 'a version-3 dump with %d log records read through %s yields %s'
+                % (len(d['evs']), d['route'], got.rsplit(':', 1)[1]))
+    r = oracle_event(case, got)
+    if r:
+        return ('oslog:dump:' + r[0].split(':', 1)[1], where + ': ' + r[1])
+    return None
+
+
+def dump_cases(rng, tier):
+    opt = [k for k, _, _ in SPEC_OPTIONAL]
+    who = ['p', 'pid', 'pip']
+    plans = []
+    # every subset of the keys that say whose record it is x sparse / dense others, then random subsets
+    for r in range(len(who) + 1):
+        for sub in itertools.combinations(who, r):
+            for dens in (0.0, 0.3, 0.8):
+                plans.append(list(sub) + [k for k in opt if k not in who and rng.random() < dens])
+    for _ in range(450 if tier == 'quick' else 12000):
+        p = rng.choice([0.1, 0.3, 0.5, 0.7, 0.9])
+        plans.append([k for k in opt if rng.random() < p])
+    plans.append([])
+    plans.append(list(opt))
+    rng.shuffle(plans)
+    cases = []
+    while plans:
+        n = rng.randrange(1, 7)
+        subsets, plans = plans[:n], plans[n:]
+        d = gen_dump(rng, subsets)
+        for i, keys in enumerate(subsets):
+            cases.append({'e': d['evs'][i], 's': d['s'], 'kind': 'dump', 'opt': sorted(keys), 'dump': d, 'index': i})
+    return cases
+
+
+def dump_kind(c, got):
+    e, d = c['e'], c['dump']
+    return '%s/%s/%s%s' % ('parse' if d['route'] == 'KdBufParser.parse' else 'os_log_events',
+                           'listed' if e['tid'] in d['listed'] else 'unlisted',
+                           '+'.join(k for k in ('p', 'pid') if k in e) or 'anonymous', '/prior' if d['prior'] else '')
+
+
 def retained_section(rep, rng, tier, events, words):
     """Decoded records are values: a record keeps what it was decoded to while later records are decoded in the same
     process.  Batches of raw events / trace-identifier words are decoded, the decoded objects are KEPT, and every object
@@ -923,6 +1115,22 @@ def correspondence(rep, rng, tier):
                      'every typed key, dates outside the datetime range, undefined trace identifiers, damaged decomposed '
                      'messages; both sides must raise the same kind of error; non-trivial = cases that raise',
                 sample_fn=lambda c: {'section': 'event-malformed', 'kind': c['kind']})
+    run_section(rep, 'event-through-dump', dump_cases(rng, tier), line_event, impl_dump_event, oracle_dump_event,
+                nontrivial_fn=lambda c, got: got.startswith('ok') and bool(c['opt']),
+                kind_fn=dump_kind,
+                rule='the same generated raw events through the file: 1..6 well-shaped events (every subset of the keys p / pid / '
+                     'pip x sparse and dense other keys, random subsets at densities 0.1..0.9, none, all; integers within the '
+                     'property-list range, thread ids from a pool of three per dump) packed as binary property lists into a '
+                     'version-3 dump — 1..3 log-events blocks, the string-index block (texts pairwise distinct) before / between / '
+                     'behind them, sometimes a stale index block in front, other blocks, kernel records in 1..4 chunks, a thread map '
+                     'that lists SOME of the records\' threads (with and without process name, pid 0 and others, duplicate and '
+                     'unrelated entries), sometimes tables left by an earlier request — and read back through KdBufParser.parse / '
+                     'PyKdebugParser.os_log_events; every OsLogEvent the dump yields is compared field by field with the Lean model '
+                     'of from_raw_log_event on the raw event and with the format oracle (present fields carry their value, absent '
+                     'fields keep their defaults; as many records as the dump holds); non-trivial = decoded records with at least '
+                     'one optional key',
+                sample_fn=lambda c: {'section': 'event-through-dump', 'optional_keys': c['opt'], 'route': c['dump']['route'],
+                                     'records': len(c['dump']['evs'])})
     dm = decomposed_cases(rng, tier)
     run_section(rep, 'decomposed', dm, line_dm, impl_decomposed, oracle_decomposed,
                 nontrivial_fn=lambda c, got: got.startswith('ok') and bool(c['d'].get('pc')),
@@ -1011,6 +1219,7 @@ def replay(path):
     table = {
         'event-subsets': (line_event, impl_event, oracle_event),
         'event-malformed': (line_event, impl_event, oracle_event_malformed),
+        'event-through-dump': (line_event, impl_dump_event, oracle_dump_event),
         'decomposed': (line_dm, impl_decomposed, oracle_decomposed),
         'decomposed-malformed': (line_dm, impl_decomposed, None),
         'traceid-domain': (lambda w: 'traceid %d' % w, impl_traceid, oracle_traceid),
